@@ -160,6 +160,19 @@ def invalid_next_to_any_field_shapes():
     return out
 
 
+def discriminator_clash_shapes():
+    """a one-of whose discriminator is named like a field the alternative objects already have (in the workflow's output tree, also inside a list): ill-formed, to be refused - not to crash the preparation. The last one is the control:
+    the same one-of with a discriminator that clashes with nothing"""
+    from vlib import oneof, tlist
+    out = []
+    a = {'kind': 'plugin', 'pstep': 'work', 'fields': {'input': tmap({'id': lit('a')})}}
+    for disc in ('tok', 'n', 'kind'):
+        mk = lambda: oneof(disc, {'ok': ref('steps.a.outputs.success'), 'other': ref('steps.a.outputs.alt')})
+        out.append(('output:' + disc, {'steps': {'a': a}, 'outputs': {'success': tmap({'x': mk()})}}))
+        out.append(('output-in-list:' + disc, {'steps': {'a': a}, 'outputs': {'success': tmap({'l': tlist([tmap({'x': mk()})])})}}))
+    return out
+
+
 def list_reference_shapes():
     """lists mixing literals and references at every position (in a step input and in the output tree): a reference is a
     dependency wherever in the list it stands and whatever stands before it"""
